@@ -307,6 +307,13 @@ def configs(tier: str):
                                                               offset=offset, finite=False, faults=faults,
                                                               hook_faults=faults and B <= 1, entry=entry, tracer=tracer,
                                                               post_write=(tracer is True)))
+    # strict models (no ad hoc attributes may appear): tracing works all the same
+    for tracer in (True, ['Y0'], 'Y0'):
+        for errors, failures in (('raise', 'ignore'), ('skip', 'ignore')):
+            for B in (0, 1, 2):
+                for entry in ('solve_t', 'solve_period'):
+                    out.append(lf.default_cfg(N=1, B=B, errors=errors, failures=failures, t=1 if entry == 'solve_period' else -1, offset='zero', finite=False,
+                                              faults=False, entry=entry, tracer=tracer, strict=True))
     # a variable whose (legal) name is also a method / property of the model class is traced like any other
     for nm in ('size', 'copy', 'eval', 'values'):
         for tracer in (True, [nm], nm, ['Y0', nm]):
